@@ -28,6 +28,7 @@ pub fn respond(line: &str) -> String {
         "disasinst" => disas::disasinst(rest),
         "disasbin" => disas::disasbin(rest),
         "dismain" => disas::dismain(rest),
+        "loadasm" => disas::loadasm(rest),
         "idmut" => reflect::idmut(rest),
         "loadbin" => load::loadbin(rest),
         _ => "bad-request".to_string(),
